@@ -23,7 +23,7 @@ first feasible set of maximal size, and which one comes first depends only on en
 utils.random before TypeOverwriting; (3) the 600 s watchdog Timer of Transformation.visit_program is replaced by an
 inert one (it never fires here; thread start latency dominates small programs on a loaded machine).
 
-Inputs: 14 hand-built scenarios x 2 element types x 4 languages, and generator programs for the fixed seed lists
+Inputs: 15 hand-built scenarios x 2 element types x 4 languages, and generator programs for the fixed seed lists
 SEEDS_QUICK / SEEDS_THOROUGH (+ VERIF_SEED-derived extras in the thorough tier); every input is rebuilt from
 (source, language, ident) alone, so each violation record is replayable with `replay`.
 
@@ -1416,6 +1416,31 @@ class RejectWalker(Walker):
         if body is None:
             self.verdict = ('undecided', 'abstract function')
             return
+        # a function whose body is nothing but a call of itself: the type of the body IS the declared return type, so no
+        # declared return type can conflict with it; if nothing else in the program calls the function, replacing the
+        # declared type cannot make the program ill-typed
+        ast = self.M.ast
+        b = o.unwrap(body)
+        if isinstance(b, ast.FunctionCall) and b.func == f.name:
+            other_calls = 0
+            stack = [o.p]
+            seen = set()
+            while stack:
+                n = stack.pop()
+                if id(n) in seen or n is body or n is b:
+                    continue
+                seen.add(id(n))
+                if isinstance(n, ast.FunctionCall) and n.func == f.name:
+                    other_calls += 1
+                if isinstance(n, ast.Node):
+                    try:
+                        stack.extend(n.children())
+                    except Exception:
+                        pass
+            if other_calls == 0:
+                self.verdict = ('accepts', '%s: the body is a call of the function itself and nothing else calls it: any '
+                                           'declared return type is consistent' % f.name)
+                return
         self._decl(f.name, f.ret_type, o.try_type(body, env, None), env)
 
     def _targ(self, names, bounds, out, recorded, env):
@@ -1953,6 +1978,19 @@ def hand_programs(M, lang):
             val('b', ast.FunctionCall('mk', [], type_args=[S()]), S()),
             val('c', ast.FunctionCall('pick', [ast.CallArgument(ast.BottomConstant(O()))], type_args=[S()]), S())))
 
+    def eq_operand(S, lit, O):
+        # a generic call whose type parameter occurs only in the return type, as an operand of ==: an operand has no
+        # expected type, so its explicit type argument is not inferable -- even when it equals the declared type of the
+        # enclosing declaration (Boolean)
+        U = tp.TypeParameter('U')
+        mk = fun('mk', [], U, ast.BottomConstant(U), tparams=[U])
+        BOOL = f.get_boolean_type
+        return prog(mk, unit(
+            'm', val('c', ast.FunctionCall('mk', [], type_args=[BOOL()]), BOOL()),
+            val('b', ast.EqualityExpr(ast.FunctionCall('mk', [], type_args=[BOOL()]), ast.BooleanConstant('true'),
+                                      ast.Operator('==')), BOOL()),
+            val('d', ast.EqualityExpr(ast.FunctionCall('mk', [], type_args=[S()]), lit(), ast.Operator('==')), BOOL())))
+
     def generic_super(S, lit, O):
         T = tp.TypeParameter('T')
         a = cls('A', tparams=[T])
@@ -2025,7 +2063,7 @@ def hand_programs(M, lang):
         return prog(base, foo, sub, other, box)
 
     scen = dict(bounded_tvar=bounded_tvar, shadowing=shadowing, decl_vs_new=decl_vs_new, ctor_arg=ctor_arg, recursion=recursion, subtype_init=subtype_init,
-                generic_call=generic_call, generic_super=generic_super, field_init=field_init, two_params=two_params,
+                generic_call=generic_call, eq_operand=eq_operand, generic_super=generic_super, field_init=field_init, two_params=two_params,
                 ret_block=ret_block, call_arg=call_arg, dup_targs=dup_targs, shared_type_object=shared_type_object,
                 conditional_init=conditional_init)
     out = {}
@@ -2040,7 +2078,7 @@ def hand_programs(M, lang):
 # generator never aliases the type object of a constructor call (scanned), so it is outside the properties' domain
 HAND = ['decl_vs_new', 'ctor_arg', 'recursion', 'subtype_init', 'generic_call', 'generic_super', 'field_init',
         'two_params', 'ret_block', 'call_arg', 'dup_targs', 'conditional_init', 'shadowing',
-        'bounded_tvar']
+        'bounded_tvar', 'eq_operand']
 HAND = HAND + [h + '_long' for h in HAND]
 
 
@@ -2358,7 +2396,7 @@ def run(tier, seed, stop_first=False, prop='C03', workers=None):
     nprog = len([r for r in results if r is not None and not r['skipped']])
     if prop == 'C03':
         why = agg.pop('why', {})
-        rule = ('%d programs (14 hand-built scenarios x 2 element types x 4 languages; generator seeds %s per language, chosen by generation '
+        rule = ('%d programs (15 hand-built scenarios x 2 element types x 4 languages; generator seeds %s per language, chosen by generation '
                 'cost only%s) x enumeration orders of equally large candidate sets (natural + VERIF_SEED-derived), each '
                 'run through the real TypeErasure on a deep copy. Per run: (1) structural snapshot of every attribute of '
                 'every node, of the symbol table and of every recorded type before/after - only VariableDeclaration.var_type '
@@ -2378,7 +2416,7 @@ def run(tier, seed, stop_first=False, prop='C03', workers=None):
                    agg.get('ret', 0), agg.get('new', 0), agg.get('call', 0), agg.get('ok', 0), agg.get('violation', 0),
                    agg.get('undecided', 0), ', '.join('%s x%d' % kv for kv in sorted(why.items(), key=lambda kv: -kv[1])[:4])))
     else:
-        rule = ('%d programs (14 hand-built scenarios x 2 element types x 4 languages; generator seeds %s per language%s), each both as '
+        rule = ('%d programs (15 hand-built scenarios x 2 element types x 4 languages; generator seeds %s per language%s), each both as '
                 'generated and after TypeErasure, x RNG seeds of the mutation (fixed + VERIF_SEED-derived), run through the '
                 'real TypeOverwriting on a deep copy. When an injection is reported (%d runs): structural diff = exactly '
                 'one declaration\'s declared+recorded type or exactly one explicit type argument (kinds: %s); new type '
